@@ -70,13 +70,20 @@ def family(tier):
         return quick, []
     three = scen('three_async', [proc([step([aw(1), aw(2)])]), proc([step([aw(3), aw(4)])]), proc([step([aw(5), aw(6)])])],
                  early=False)
-    three_child = scen('three_child', [proc([step([aw(1), launch(4), aw(2)])], ctl=['pause']),
+    three_child = scen('three_child', [proc([step([aw(1), launch(4), aw(2)])]),
                                        proc([step([soon(), aw(3)], 'cont'), step([aw(4)])]),
-                                       proc([step([], 'wait'), step([aw(5)])], ctl=['kill']),
-                                       proc([step([aw(6)])], role='sub')], early=False, soon_env=[4])
-    ctl3 = scen('control3', [proc([step([aw(1)], 'cont'), step([aw(2)])], ctl=['kill', 'pause']),
-                             proc([step([aw(3)], 'wait'), step([])], ctl=['kill', 'pause']),
-                             proc([step([soon(True), aw(4)])], ctl=['pause'])], early=False)
+                                       proc([step([], 'wait'), step([aw(5)])]),
+                                       proc([step([aw(6)])], role='sub')], early=False)
+    three_ctl = scen('three_ctl', [proc([step([aw(1), launch(4)])], ctl=['pause']),
+                                   proc([step([soon(), aw(2)], 'cont'), step([])]),
+                                   proc([step([], 'wait'), step([])], ctl=['kill']),
+                                   proc([step([aw(3)])], role='sub')], early=False)
+    control3 = scen('control3', [proc([step([aw(1)], 'cont'), step([])], ctl=['kill', 'pause']),
+                                 proc([step([aw(2)], 'wait'), step([])], ctl=['pause']),
+                                 proc([step([soon(True), aw(3)])])], early=False)
+    control3_idle = scen('control3_idle', [proc([step([aw(1)], 'cont'), step([aw(2)])], ctl=['kill', 'pause']),
+                                           proc([step([aw(3)], 'wait'), step([])], ctl=['kill', 'pause']),
+                                           proc([step([soon(True), aw(4)])], ctl=['pause'])], mode='idle', early=False)
     nest3 = scen('nest3', [proc([step([aw(1), nest(4), aw(2)])]),
                            proc([step([aw(3), launch(5)], 'cont'), step([aw(4)])]),
                            proc([step([soon(), aw(5)])], ctl=['kill']),
@@ -89,7 +96,7 @@ def family(tier):
                                    proc([step([aw(5)], 'wait'), step([])])], mode='idle', early=False, soon_env=[3])
     nest_early = scen('nest_early', [proc([step([aw(1), nest(3)])]), proc([step([nest(4), aw(2)])]),
                                      proc([step([aw(3)])], role='sub'), proc([step([aw(4)])], role='sub')], mode='idle')
-    return quick + [three, three_child, ctl3, nest3, nest_deep, nest_early], []
+    return quick + [three, three_child, three_ctl, control3_idle, nest3, nest_deep, nest_early], [control3]
 
 
 # ---- MC module -------------------------------------------------------------------------------------------
